@@ -400,3 +400,81 @@ def call_value(self, f, args, fr=None):
         return _orig_call_value(self, p, args, fr)
     return _orig_call_value(self, f, args, fr)
 Interp.call_value = call_value
+
+
+# ---------------------------------------------------------------------------- nom "complete" variants (no Incomplete: the input is all there is)
+def complete_split(I, inp, stop_pred, at_least_one, kind):
+    inp = as_slice(inp)
+    items = inp.items()
+    i = 0
+    while i < len(items) and not I.ctx.decide(stop_pred(I, items[i])):
+        i += 1
+    if i == 0 and at_least_one:
+        return nerror(inp, kind)
+    return done(inp.sub(i, len(items)), inp.sub(0, i))
+
+@model('nom::character::complete::digit1', 'complete::digit1')
+def m_cdigit1(I, c, args, fr):
+    return complete_split(I, args[0], lambda I, x: b_not(is_digit(x)), True, 'Digit')
+
+@model('nom::character::complete::digit0', 'complete::digit0')
+def m_cdigit0(I, c, args, fr):
+    return complete_split(I, args[0], lambda I, x: b_not(is_digit(x)), False, 'Digit')
+
+@model('nom::bytes::complete::tag', 'complete::tag')
+def m_ctag(I, c, args, fr):
+    t = as_items(args[0])
+    def parse(I, inp):
+        inp = as_slice(inp)
+        items = inp.items()
+        if len(items) < len(t) or not I.ctx.decide(seq_eq(items[:len(t)], t)):
+            return nerror(inp, 'Tag')
+        return done(inp.sub(len(t), len(items)), inp.sub(0, len(t)))
+    return PyFn(parse, 'complete::tag')
+
+@model('nom::bytes::complete::take', 'complete::take')
+def m_ctake(I, c, args, fr):
+    n = args[0]
+    def parse(I, inp):
+        inp = as_slice(inp)
+        k = I.ctx.concretize(n) if is_sym(n) else n
+        if k > len(inp):
+            return nerror(inp, 'Eof')
+        return done(inp.sub(k, len(inp)), inp.sub(0, k))
+    return PyFn(parse, 'complete::take')
+
+@model('nom::bytes::complete::take_while', 'complete::take_while')
+def m_ctake_while(I, c, args, fr):
+    pred = args[0]
+    return PyFn(lambda I, inp: complete_split(I, inp, lambda I, x: b_not(I.call_value(pred, [x])), False, 'TakeWhile'), 'complete::take_while')
+
+@model('nom::bytes::complete::take_while1', 'complete::take_while1')
+def m_ctake_while1(I, c, args, fr):
+    pred = args[0]
+    return PyFn(lambda I, inp: complete_split(I, inp, lambda I, x: b_not(I.call_value(pred, [x])), True, 'TakeWhile1'), 'complete::take_while1')
+
+@model('nom::bytes::complete::take_until', 'complete::take_until')
+def m_ctake_until(I, c, args, fr):
+    t = as_items(args[0])
+    def parse(I, inp):
+        inp = as_slice(inp)
+        items = inp.items()
+        for i in range(len(items) - len(t) + 1):
+            if I.ctx.decide(seq_eq(items[i:i+len(t)], t)):
+                return done(inp.sub(i, len(items)), inp.sub(0, i))
+        return nerror(inp, 'TakeUntil')
+    return PyFn(parse, 'complete::take_until')
+
+@model('nom::character::complete::char', 'complete::char')
+def m_cchar(I, c, args, fr):
+    ch = args[0]
+    def parse(I, inp):
+        inp = as_slice(inp)
+        if len(inp) and I.ctx.decide(int_eq(bv(inp.at(0), 32) if is_sym(inp.at(0)) else inp.at(0), ch)):
+            return done(inp.sub(1, len(inp)), ch)
+        return nerror(inp, 'Char')
+    return PyFn(parse, 'complete::char')
+
+@model('nom::character::complete::newline', 'complete::newline')
+def m_cnewline(I, c, args, fr):
+    return m_cchar(I, c, [10], fr).f(I, args[0])
